@@ -1,0 +1,54 @@
+//go:build verif
+
+// Package verifshim re-exports, for the external verification harness only,
+// the packages that Go's internal/ rule hides from other modules. It is
+// compiled only with the "verif" build tag and contains no logic.
+package verifshim
+
+import (
+	"bufio"
+
+	"golang.org/x/text/encoding"
+
+	"github.com/emersion/go-imap/v2/internal"
+	"github.com/emersion/go-imap/v2/internal/imapnum"
+	"github.com/emersion/go-imap/v2/internal/imapwire"
+	"github.com/emersion/go-imap/v2/internal/utf7"
+)
+
+type (
+	NumRange            = imapnum.Range
+	NumSet              = imapnum.Set
+	Encoder             = imapwire.Encoder
+	Decoder             = imapwire.Decoder
+	ConnSide            = imapwire.ConnSide
+	ContinuationRequest = imapwire.ContinuationRequest
+	LiteralReader       = imapwire.LiteralReader
+	NumKind             = imapwire.NumKind
+)
+
+const (
+	ConnSideClient = imapwire.ConnSideClient
+	ConnSideServer = imapwire.ConnSideServer
+	NumKindSeq     = imapwire.NumKindSeq
+	NumKindUID     = imapwire.NumKindUID
+)
+
+var (
+	ParseNumSet            = imapnum.ParseSet
+	ParseSeqSet            = imapwire.ParseSeqSet
+	IsAtomChar             = imapwire.IsAtomChar
+	NewContinuationRequest = imapwire.NewContinuationRequest
+	ExpectFlag             = internal.ExpectFlag
+	ExpectFlagList         = internal.ExpectFlagList
+	ExpectMailboxAttr      = internal.ExpectMailboxAttr
+	ExpectMailboxAttrList  = internal.ExpectMailboxAttrList
+	ExpectDate             = internal.ExpectDate
+	ExpectDateTime         = internal.ExpectDateTime
+	ErrInvalidUTF7         = utf7.ErrInvalidUTF7
+)
+
+func UTF7() encoding.Encoding { return utf7.Encoding }
+
+func NewEncoder(w *bufio.Writer, side ConnSide) *Encoder { return imapwire.NewEncoder(w, side) }
+func NewDecoder(r *bufio.Reader, side ConnSide) *Decoder { return imapwire.NewDecoder(r, side) }
